@@ -201,6 +201,10 @@ fn channel_thread(
 }
 
 fn e2e_case(r: &mut Rng, allow_empty_frames: bool, res: &mut CaseResult) {
+    if r.chance(1, 3) {
+        session::ambient_jitter(Some(r.next()));
+        res.tags.insert("transport jitter".to_string());
+    }
     let fm: usize = *r.pick(&[4096usize, 4096, 8192, 131072]);
     let mut reflex = Reflex::default();
     reflex.tune = (2047, fm as u32, 0);
